@@ -103,39 +103,43 @@ Fixpoint cut_at (c : N) (s : bytes) : option (bytes * bytes) :=
               else match cut_at c r with Some (a, b) => Some (x :: a, b) | None => None end
   end.
 
-(* parseIPv6: 16 bytes and the zone *)
-Definition parse6 (s0 : bytes) : option (bytes * bytes) :=
-  let sz := match cut_at c_pct s0 with Some (a, z) => Some (a, Some z) | None => Some (s0, None) end in
-  match sz with
-  | Some (_, Some []) => None                               (* empty zone *)
-  | Some (s, oz) =>
-    let zone := match oz with Some z => z | None => [] end in
-    let '(s1, ell0, only) :=
-      match s with
-      | c1 :: c2 :: r => if (c1 =? c_colon) && (c2 =? c_colon)
-                         then (r, Some O, match r with [] => true | _ => false end)
-                         else (s, None, false)
-      | _ => (s, None, false)
-      end in
-    if only then Some (repeat 0 16, zone)
-    else match p6_loop (S (length s1)) s1 ell0 [] with
-    | None => None
-    | Some (ip, ell, rest) =>
-      match rest with
-      | _ :: _ => None                                      (* trailing garbage *)
-      | [] =>
-        if Nat.ltb (length ip) 16 then
-          match ell with
-          | None => None                                    (* too short *)
-          | Some e => Some (firstn e ip ++ repeat 0 (16 - length ip) ++ skipn e ip, zone)
-          end
-        else match ell with
-             | Some _ => None                               (* :: must expand to at least one group *)
-             | None => Some (ip, zone)
-             end
-      end
-    end
+(* a leading "::" : remaining text, ellipsis position, "nothing else follows" *)
+Definition strip_lead (s : bytes) : bytes * option nat * bool :=
+  match s with
+  | c1 :: c2 :: r => if (c1 =? c_colon) && (c2 =? c_colon)
+                     then (r, Some O, match r with [] => true | _ => false end)
+                     else (s, None, false)
+  | _ => (s, None, false)
+  end.
+
+(* the part of parseIPv6 after the zone has been cut off *)
+Definition parse6_body (s : bytes) : option bytes :=
+  let '(s1, ell0, only) := strip_lead s in
+  if only then Some (repeat 0 16)
+  else match p6_loop (S (length s1)) s1 ell0 [] with
   | None => None
+  | Some (ip, ell, rest) =>
+    match rest with
+    | _ :: _ => None                                      (* trailing garbage *)
+    | [] =>
+      if Nat.ltb (length ip) 16 then
+        match ell with
+        | None => None                                    (* too short *)
+        | Some e => Some (firstn e ip ++ repeat 0 (16 - length ip) ++ skipn e ip)
+        end
+      else match ell with
+           | Some _ => None                               (* :: must expand to at least one group *)
+           | None => Some ip
+           end
+    end
+  end.
+
+(* parseIPv6: 16 bytes and the zone (cut at the first '%'; an explicitly empty zone is an error) *)
+Definition parse6 (s0 : bytes) : option (bytes * bytes) :=
+  match cut_at c_pct s0 with
+  | Some (_, []) => None
+  | Some (s, z) => match parse6_body s with Some ip => Some (ip, z) | None => None end
+  | None => match parse6_body s0 with Some ip => Some (ip, []) | None => None end
   end.
 
 (* netip.ParseAddr: the first of '.', ':', '%' decides *)
